@@ -10,8 +10,9 @@ for log in sys.argv[1:]:
         m = re.match(r'SEED (\S+) property=(\S+) demo_clean=(\d+) demo_patched=(\d+) tests: (.*)', line)
         if m:
             cur = m.group(1)
+            prev = results.get(cur, {})
             results[cur] = dict(property=m.group(2), demo_clean=int(m.group(3)), demo_patched=int(m.group(4)),
-                                tests=m.group(5).strip(), checks={})
+                                tests=m.group(5).strip() or prev.get('tests', ''), checks={})
             continue
         m = re.match(r'\s+check (\S+) exit=(\d+)\s*(.*)', line)
         if m and cur:
